@@ -22,6 +22,8 @@ func init() {
 	heldMod := func(fr *Frame, c *ssa.CallCommon, set map[string]bool) {
 		set["held"] = true
 		fr.vc.compSort["held"] = "(Array Int Bool)"
+		set["acq"] = true
+		fr.vc.compSort["acq"] = "(Array Int Int)"
 		if fr.mode != nil && fr.mode.Concurrent {
 			set["world"] = true
 		}
@@ -128,6 +130,9 @@ func lockOp(acquire, read bool) specialFn {
 			fr.interfere(l, st)
 			vc.assume(st.guard, mkNot(mkSelect(held, l))) // re-locking a held mutex never returns
 			vc.setComp(st, "held", "(Array Int Bool)", vc.name("held", "(Array Int Bool)", mkStore(held, l, tTrue)))
+			// acquisition counter (atomicity discipline): acq[l] = number of times l has been acquired
+			acq := vc.comp(st, "acq", "(Array Int Int)")
+			vc.setComp(st, "acq", "(Array Int Int)", vc.name("acq", "(Array Int Int)", mkStore(acq, l, app("+", mkSelect(acq, l), leaf("1")))))
 		} else {
 			if fr.mode != nil && fr.mode.Concurrent {
 				fr.lockRelease(site, l, st, pos)
